@@ -73,7 +73,10 @@ func (r *FeatureLocal) AddFunctionType(function model.FunctionType, read, write 
 	if r.role != model.RoleTypeServer && r.role != model.RoleTypeSpecial {
 		return
 	}
-	if r.operations[function] != nil {
+	r.opMux.RLock()
+	exists := r.operations[function] != nil
+	r.opMux.RUnlock()
+	if exists {
 		return
 	}
 	writePartial := false
@@ -84,7 +87,13 @@ func (r *FeatureLocal) AddFunctionType(function model.FunctionType, read, write 
 		}
 	}
 	// partial reads are currently not supported!
+	r.opMux.Lock()
+	if r.operations[function] != nil {
+		r.opMux.Unlock()
+		return
+	}
 	r.operations[function] = NewOperations(read, false, write, writePartial)
+	r.opMux.Unlock()
 
 	if r.role == model.RoleTypeServer &&
 		r.ftype == model.FeatureTypeTypeDeviceDiagnosis &&
@@ -96,6 +105,9 @@ func (r *FeatureLocal) AddFunctionType(function model.FunctionType, read, write 
 
 func (r *FeatureLocal) Functions() []model.FunctionType {
 	var fcts []model.FunctionType
+
+	r.opMux.RLock()
+	defer r.opMux.RUnlock()
 
 	for key := range r.operations {
 		fcts = append(fcts, key)
@@ -862,6 +874,7 @@ func (r *FeatureLocal) functionData(function model.FunctionType) api.FunctionDat
 
 func (r *FeatureLocal) Information() *model.NodeManagementDetailedDiscoveryFeatureInformationType {
 	var funs []model.FunctionPropertyType
+	r.opMux.RLock()
 	for fun, operations := range r.operations {
 		var functionType = model.FunctionType(fun)
 		sf := model.FunctionPropertyType{
@@ -871,6 +884,7 @@ func (r *FeatureLocal) Information() *model.NodeManagementDetailedDiscoveryFeatu
 
 		funs = append(funs, sf)
 	}
+	r.opMux.RUnlock()
 
 	res := model.NodeManagementDetailedDiscoveryFeatureInformationType{
 		Description: &model.NetworkManagementFeatureDescriptionDataType{
